@@ -18,7 +18,8 @@ Local Open Scope N_scope.
 (* ---------- generated programs ---------- *)
 Inductive sop :=
   | SSleep (d : N) | SAdd (x : tid) (j : cbid) (a : N) | SRem (x : tid) (j : cbid) | SWait (x : tid)
-  | SCancel (x : tid) | SCancelSelf | SCreate (c : tid) | SClaim (n : name) | SRaise | SRet (v : N).
+  | SCancel (x : tid) | SCancelSelf | SCreate (c : tid) | SClaim (n : name) | SRaise | SRet (v : N)
+  | SCall (x : tid).       (* service.call("pyscript", <service x>, blocking=True): starts service run x and awaits it *)
 Record tdesc := mkTd { td_kind : kind; td_at : N; td_steps : list sop }.
 Record cbdesc := mkCd { cd_sleep : N; cd_raise : bool }.
 Inductive fpoint := FStep (k : N) | FCb (j : cbid).
@@ -29,6 +30,7 @@ Inductive ekind :=
   | EM (k : N)                                  (* marker: task is about to execute step k (k = #steps: fell off the end) *)
   | EX (e : N)                                  (* the body raised: 1 KeyError, 2 TypeError, 3 ValueError, 0 other *)
   | EW (x : tid) (dn cn : bool) (res : N)       (* task.wait({x}) returned; x.done(), x.cancelled(), result code *)
+  | ER (x : tid) (dn cn : bool) (res : N)       (* the blocking service.call that started x returned; same data *)
   | ECb (j : cbid) (a : N)                      (* done-callback j called with argument a *)
   | ECe (j : cbid)                              (* a suspending callback resumed *)
   | EF (i : tid) (ok : bool).                   (* fault: the real user_task_cancel(task i) was called; ok = no TypeError *)
@@ -53,7 +55,7 @@ Record lcase := mkLc {
 }.
 
 (* ---------- scheduler state ---------- *)
-Inductive susp := UNone | USleep | UWait (x : tid) | USelf | UCb.
+Inductive susp := UNone | USleep | UWait (x : tid) | USelf | UCb | UCall (x : tid).
 Inductive timer := TWake (t : tid) | TFault (x : tid) | TInject (t : tid).
 (* one entry = one callback in asyncio's ready queue (call_soon order) *)
 Inductive work :=
@@ -62,9 +64,10 @@ Inductive work :=
   | WCancelWake (t : tid)            (* Task.cancel() cancelled the future t waits on *)
   | WCompletion (w x : tid)          (* asyncio.wait's _on_completion for waiter w: x is done *)
   | WWaitDone (w x : tid)            (* ... which resolved w's waiter future: w resumes *)
+  | WCallDone (w x : tid)            (* the service task x that w awaits inside service.call is done *)
   | WReaper                          (* the reaper's q.get() has an item *)
   | WReaperWake.                     (* the task the reaper awaits is done *)
-Definition REAPER : N := 98.
+Inductive awaiter := AWait (w : tid) | ACall (w : tid) | AReaper.
 
 Record sched := mkSc {
   sc_st : state;
@@ -72,7 +75,7 @@ Record sched := mkSc {
   sc_pc : tid -> nat;
   sc_susp : tid -> susp;
   sc_timers : list (N * timer);
-  sc_waiters : list (N * tid);          (* (waiter or REAPER, awaited task), in registration order *)
+  sc_waiters : list (awaiter * tid);    (* (who awaits, awaited task), in registration order *)
   sc_work : list work;
   sc_faults : list fault;
   sc_events : list event;               (* newest first *)
@@ -90,7 +93,7 @@ Definition with_susp (sc : sched) (t : tid) (u : susp) : sched :=
   mkSc (sc_st sc) (sc_now sc) (sc_pc sc) (upd (sc_susp sc) t u) (sc_timers sc) (sc_waiters sc) (sc_work sc) (sc_faults sc) (sc_events sc) (sc_labels sc) (sc_err sc).
 Definition with_timers (sc : sched) (l : list (N * timer)) : sched :=
   mkSc (sc_st sc) (sc_now sc) (sc_pc sc) (sc_susp sc) l (sc_waiters sc) (sc_work sc) (sc_faults sc) (sc_events sc) (sc_labels sc) (sc_err sc).
-Definition with_waiters (sc : sched) (l : list (N * tid)) : sched :=
+Definition with_waiters (sc : sched) (l : list (awaiter * tid)) : sched :=
   mkSc (sc_st sc) (sc_now sc) (sc_pc sc) (sc_susp sc) (sc_timers sc) l (sc_work sc) (sc_faults sc) (sc_events sc) (sc_labels sc) (sc_err sc).
 Definition with_work (sc : sched) (l : list work) : sched :=
   mkSc (sc_st sc) (sc_now sc) (sc_pc sc) (sc_susp sc) (sc_timers sc) (sc_waiters sc) l (sc_faults sc) (sc_events sc) (sc_labels sc) (sc_err sc).
@@ -136,6 +139,11 @@ Section Sim.
     match phase_of s x with
     | PNone => false
     | PCreated => match kind_of x with KCreate => true | _ => false end
+    | PDone => match kind_of x, tr_out (st_task s x) with
+               | KCreate, _ => true
+               | _, None => false                 (* cancelled before its first step: T[x] was never set *)
+               | _, _ => true
+               end
     | _ => true
     end.
 
@@ -169,7 +177,11 @@ Section Sim.
   Definition task_done (t : tid) (sc : sched) : sched :=
     let mine := filter (fun p => N.eqb (snd p) t) (sc_waiters sc) in
     let rest := filter (fun p => negb (N.eqb (snd p) t)) (sc_waiters sc) in
-    let sc1 := fold_left (fun sc' p => push_work (if N.eqb (fst p) REAPER then WReaperWake else WCompletion (fst p) t) sc')
+    let sc1 := fold_left (fun sc' p => push_work (match fst p with
+                                                  | AReaper => WReaperWake
+                                                  | AWait w => WCompletion w t
+                                                  | ACall w => WCallDone w t
+                                                  end) sc')
                          mine (with_waiters sc rest) in
     with_susp sc1 t UNone.
 
@@ -228,7 +240,7 @@ Section Sim.
             if known (sc_st sc1) x then
               let sc2 := with_susp (with_pc sc1 t (S k)) t (UWait x) in
               if is_done (sc_st sc2) x then push_work (WCompletion t x) sc2
-              else with_waiters sc2 (sc_waiters sc2 ++ [(t, x)])
+              else with_waiters sc2 (sc_waiters sc2 ++ [(AWait t, x)])
             else nokey tt
         | SCancel x =>
             if known (sc_st sc1) x then
@@ -239,6 +251,10 @@ Section Sim.
             with_susp (push_work WReaper (app (LCancel (Some t) t) (with_pc sc1 t (S k)))) t USelf
         | SCreate c => next (push_work (WStart c) (app (LCreate c KCreate) sc1))
         | SClaim n => next (push_work WReaper (app (LClaim t n) sc1))
+        | SCall x =>
+            (* HA runs the handler inline: create_task for the service run, then [await task] *)
+            let sc2 := push_work (WStart x) (app (LCreate x KSvc) (with_pc sc1 t (S k))) in
+            with_susp (with_waiters sc2 (sc_waiters sc2 ++ [(ACall t, x)])) t (UCall x)
         | SRaise => fail 3 (app (LEnd t ORaise) sc1)
         | SRet v => fin_loop FUEL t (app (LEnd t (ORet (Some v))) sc1)
         end
@@ -276,6 +292,13 @@ Section Sim.
               let rx := st_task (sc_st sc) x in
               body_loop FUEL t (emit t (EW x true (is_cancelled rx) (res_code rx)) (with_susp sc t UNone))
             else sc
+        | WCallDone _ x, UCall x' =>
+            if N.eqb x x' && is_done (sc_st sc) x then
+              let rx := st_task (sc_st sc) x in
+              let sc0 := with_susp sc t UNone in
+              if is_cancelled rx && d_call_cancel_kills cfg then fin_loop FUEL t (app (LCallKilled t x) sc0)
+              else body_loop FUEL t (emit t (ER x true (is_cancelled rx) (if is_cancelled rx then 0 else res_code rx)) sc0)
+            else sc
         | _, _ => sc
         end
     end.
@@ -293,8 +316,23 @@ Section Sim.
               (* Task.cancel(): the future x waits on is cancelled, x is scheduled with CancelledError; then [await x] *)
               let sc2 := with_timers sc1 (filter (fun p => match snd p with TWake t => negb (N.eqb t x) | _ => true end)
                                                  (sc_timers sc1)) in
-              let sc3 := with_waiters sc2 (filter (fun p => negb (N.eqb (fst p) x)) (sc_waiters sc2) ++ [(REAPER, x)]) in
-              push_work (WCancelWake x) sc3
+              let sc3 := with_waiters sc2 (filter (fun p => match fst p with AWait w => negb (N.eqb w x) | _ => true end)
+                                                  (sc_waiters sc2) ++ [(AReaper, x)]) in
+              match sc_susp sc3 x with
+              | UCall y =>
+                  (* x awaits task y: the cancellation goes to y, x is resumed (with CancelledError) when y is done *)
+                  let was_done := is_done (sc_st sc3) y in
+                  let sc4 := app (LPropCancel x y) sc3 in
+                  if was_done then sc4
+                  else if is_done (sc_st sc4) y then task_done y sc4
+                  else
+                    let sc5 := with_timers sc4 (filter (fun p => match snd p with TWake t => negb (N.eqb t y) | _ => true end)
+                                                       (sc_timers sc4)) in
+                    let sc6 := with_waiters sc5 (filter (fun p => match fst p with AWait w => negb (N.eqb w y) | _ => true end)
+                                                        (sc_waiters sc5)) in
+                    push_work (WCancelWake y) sc6
+              | _ => push_work (WCancelWake x) sc3
+              end
           | None => if sc_err sc1 then sc1 else reaper_loop f sc1            (* cancel() of a finished task, [await] returns at once *)
           end
       | _, _ => sc
@@ -306,7 +344,7 @@ Section Sim.
     | WStart t => body_loop FUEL t (app (LStart t) sc)
     | WTimer t | WCancelWake t => resume w t sc
     | WCompletion t x => push_work (WWaitDone t x) sc
-    | WWaitDone t _ => resume w t sc
+    | WWaitDone t _ | WCallDone t _ => resume w t sc
     | WReaper => reaper_loop FUEL sc
     | WReaperWake =>
         match st_rbusy (sc_st sc) with
@@ -357,12 +395,14 @@ Section Sim.
       end
     end.
 
+  Definition is_callee (x : tid) : bool :=
+    existsb (fun d => existsb (fun o => match o with SCall y => N.eqb y x | _ => false end) (td_steps d)) tasks.
   Fixpoint inject_timers (l : list tdesc) (i : N) : list (N * timer) :=
     match l with
     | [] => []
     | d :: r => match td_kind d with
                 | KCreate => inject_timers r (i + 1)
-                | _ => (td_at d, TInject i) :: inject_timers r (i + 1)
+                | _ => if is_callee i then inject_timers r (i + 1) else (td_at d, TInject i) :: inject_timers r (i + 1)
                 end
     end.
 
@@ -375,7 +415,7 @@ Definition ekind_eqb (a b : ekind) : bool :=
   match a, b with
   | EM k, EM k' => N.eqb k k'
   | EX e, EX e' => N.eqb e e'
-  | EW x d c r, EW x' d' c' r' => N.eqb x x' && Bool.eqb d d' && Bool.eqb c c' && N.eqb r r'
+  | EW x d c r, EW x' d' c' r' | ER x d c r, ER x' d' c' r' => N.eqb x x' && Bool.eqb d d' && Bool.eqb c c' && N.eqb r r'
   | ECb j a, ECb j' a' => N.eqb j j' && N.eqb a a'
   | ECe j, ECe j' => N.eqb j j'
   | EF i ok, EF i' ok' => N.eqb i i' && Bool.eqb ok ok'
@@ -526,7 +566,11 @@ Section Spec.
         | _ => owners_after r own acc
         end
     end.
-  Definition targeted (t : tid) : bool := existsb (N.eqb t) (owners_after ops [] []).
+  Definition targeted_directly (t : tid) : bool := existsb (N.eqb t) (owners_after ops [] []).
+  (* the service run started by a blocking service.call is cancelled together with its caller (no claim on it then) *)
+  Definition callers_of (x : tid) : list tid :=
+    filter (fun t => existsb (fun o => match o with SCall y => N.eqb y x | _ => false end) (sp_steps t)) (upto (length (lc_tasks c))).
+  Definition targeted (t : tid) : bool := targeted_directly t || existsb targeted_directly (callers_of t).
 
   Definition my_events (t : tid) : list event := proj t (lc_events c).
   Definition raised (t : tid) : bool := existsb (fun e => match e_kind e with EX _ => true | _ => false end) (my_events t).
@@ -558,7 +602,7 @@ Section Spec.
   (* ... and task.wait reported exactly that *)
   Definition spec_wait_reports : bool :=
     forallb (fun e => match e_kind e with
-                      | EW x dn cn res =>
+                      | EW x dn cn res | ER x dn cn res =>
                           let f := sp_fin x in
                           dn && ft_done f && Bool.eqb cn (ft_cancelled f) && (cn || N.eqb res (ft_res f))
                       | _ => true
@@ -571,7 +615,7 @@ Section Spec.
     | S k' => match l with
               | [] => Some 0
               | SSleep d :: r => match sleeps_before r k' with Some x => Some (d + x) | None => None end
-              | SWait _ :: _ => None
+              | SWait _ :: _ | SCall _ :: _ => None
               | _ :: r => sleeps_before r k'
               end
     end.
@@ -600,6 +644,7 @@ Section Spec.
          | None => match last_marker t with
                    | Some k => match nth_error (sp_steps t) (N.to_nat k) with
                                | Some (SWait x) => negb (ft_done (sp_fin x)) || negb (ft_known (sp_fin x))
+                               | Some (SCall x) => negb (ft_done (sp_fin x))
                                | _ => false
                                end
                    | None => false
@@ -623,13 +668,46 @@ Section Spec.
          end) && spec_ops_succeed rest (S idx)
     end.
 
+  (* S6: a cancelled task really ends where it is.  Judged when no callback of the case suspends (then every cancellation
+     completes within its instant and the reaper is never busy): after a successful cancel request for x made while x was
+     suspended in its body, x emits no further marker / wait / call-return event, and it ends cancelled *)
+  Definition body_event (e : event) : bool :=
+    match e_kind e with EM _ | EW _ _ _ _ | ER _ _ _ _ => true | _ => false end.
+  Definition ended_by (x : tid) (e : event) : bool :=
+    N.eqb (e_who e) x &&
+    match e_kind e with
+    | EX _ => true
+    | EM k => N.eqb k (N.of_nat (length (sp_steps x)))
+              || match nth_error (sp_steps x) (N.to_nat k) with Some (SRet _) | Some SRaise => true | _ => false end
+    | _ => false
+    end.
+  Definition spec_cancel_ends : bool :=
+    if negb (forallb (fun cd => N.eqb (cd_sleep cd) 0) (lc_cbs c)) then true
+    else
+      forallb (fun o =>
+        let '(idx, who, op) := o in
+        let target := match op with SCancel x => if N.eqb x who then None else Some x | SCancelSelf => Some who | _ => None end in
+        match target, nth_error (lc_events c) idx with
+        | Some x, Some ereq =>
+            let before := firstn idx (lc_events c) in
+            let after := skipn (S idx) (lc_events c) in
+            let mine_before := proj x before in
+            let selfc := N.eqb x who in
+            let suspended := selfc || (negb (existsb (ended_by x) before)
+                                        && match rev mine_before with e :: _ => e_time e <? e_time ereq | [] => false end) in
+            if suspended then
+              negb (existsb (fun e => N.eqb (e_who e) x && body_event e) after) && ft_cancelled (sp_fin x)
+            else true
+        | _, _ => true
+        end) ops.
+
   Definition spec_task (t : tid) : bool :=
     let f := sp_fin t in
     (if ft_done f then spec_cleanup t && spec_callbacks t else true)
     && spec_outcome t && spec_timing t && spec_not_killed t.
 
   Definition spec_all : bool :=
-    forallb spec_task (upto (length (lc_tasks c))) && spec_wait_reports && spec_ops_succeed (lc_events c) 0 && N.eqb (lc_stray c) 0.
+    forallb spec_task (upto (length (lc_tasks c))) && spec_wait_reports && spec_ops_succeed (lc_events c) 0 && spec_cancel_ends && N.eqb (lc_stray c) 0.
 End Spec.
 
 Definition lcase_spec_ok (c : lcase) : bool := negb (lc_clean c) || spec_all c.
@@ -637,9 +715,11 @@ Definition lcase_spec_ok (c : lcase) : bool := negb (lc_clean c) || spec_all c.
 (* ---------- attribution of a Spec failure to open findings ---------- *)
 Definition with_off (k : nat) (dv : deviations) : deviations :=
   mkDev (if Nat.eqb k 22 then false else d_cb_raise_breaks dv) (if Nat.eqb k 20 then false else d_service_no_cbrec dv)
-        (if Nat.eqb k 140 then false else d_fin_cancel_escapes dv) (if Nat.eqb k 141 then false else d_live_iter dv).
+        (if Nat.eqb k 140 then false else d_fin_cancel_escapes dv) (if Nat.eqb k 141 then false else d_live_iter dv)
+        (if Nat.eqb k 142 then false else d_call_cancel_kills dv).
 Definition switches (dv : deviations) : list (nat * bool) :=
-  [(22%nat, d_cb_raise_breaks dv); (20%nat, d_service_no_cbrec dv); (140%nat, d_fin_cancel_escapes dv); (141%nat, d_live_iter dv)].
+  [(22%nat, d_cb_raise_breaks dv); (20%nat, d_service_no_cbrec dv); (140%nat, d_fin_cancel_escapes dv); (141%nat, d_live_iter dv);
+   (142%nat, d_call_cancel_kills dv)].
 
 (* Dk is blamed iff the Model under the measured switches reproduces the observation, the Model with every switch off
    satisfies the Spec on this case, and switch k is on and changes the prediction for this case (if no single switch
@@ -659,6 +739,7 @@ Definition show_event (e : event) : N * N * (N * N * N) * N :=
   (e_time e, e_who e,
    match e_kind e with
    | EM k => (0, k, 0) | EX x => (1, x, 0) | EW x d cn r => (2, x, (if d then 1 else 0) + (if cn then 2 else 0) + 4 * r)
+   | ER x d cn r => (6, x, (if d then 1 else 0) + (if cn then 2 else 0) + 4 * r)
    | ECb j a => (3, j, a) | ECe j => (4, j, 0) | EF i ok => (5, i, if ok then 1 else 0)
    end, e_snap e).
 Definition show_fin (f : fin_task) := (ft_known f, ft_done f, ft_cancelled f, ft_res f, ft_bits f).
@@ -666,4 +747,4 @@ Definition lcase_explain (dv : deviations) (c : lcase) :=
   let p := predict dv c in
   (lc_clean p, map show_event (lc_events p), map show_fin (lc_fin p), lc_fin_names p, lc_fin_rq p,
    (lcase_spec_ok c, map (fun t => (spec_cleanup c t, spec_callbacks c t, spec_outcome c t, spec_timing c t, spec_not_killed c t))
-                         (upto (length (lc_tasks c))), spec_wait_reports c, spec_ops_succeed c (lc_events c) 0)).
+                         (upto (length (lc_tasks c))), spec_wait_reports c, spec_ops_succeed c (lc_events c) 0, spec_cancel_ends c)).
